@@ -228,11 +228,11 @@ def aggregate_states(cx, nmol, cond, limit):
 
 @harness("C14", "weak_coupling_basis",
          quick=[dict(nmol=2, limit="weak_coupling"), dict(nmol=2, limit="strong_coupling")],
-         thorough=[dict(nmol=n, limit=l) for n in (2, 3) for l in ("weak_coupling", "strong_coupling")],
+         thorough=[dict(nmol=2, limit=l) for l in ("weak_coupling", "strong_coupling")],
          functions=[F_AB + ":AggregateBase.get_DensityMatrix", "quantarhei/core/managers.py:eigenbasis_of.__enter__",
                     "quantarhei/core/managers.py:eigenbasis_of.__exit__",
                     "quantarhei/qm/hilbertspace/operators.py:Operator.transform"],
-         bound="dimer (thorough trimer): excitonic (weak coupling) and site (strong coupling) equilibrium requested outside any context vs inside "
+         bound="dimer (the trimer's 3x3 excited block with Exp terms did not finish in 25 minutes): excitonic (weak coupling) and site (strong coupling) equilibrium requested outside any context vs inside "
                "eigenbasis_of(H) and read outside; Hamiltonian symbolic, eigenbasis from the eigh contract "
                "(block-diagonal orthogonal S with H S = S diag(w)), T>0 symbolic",
          out="")
